@@ -8,6 +8,7 @@ the uniform-fraction law before core collapse, the 1-sqrt(m/md) weighting
 heavy bins, preserved remnant means, the slope-change formula.
 """
 import copy
+import os
 import math
 
 import numpy as np
@@ -16,8 +17,8 @@ import common as C
 import fieldutil as F
 import implutil as U
 
-STATIC = ["Model/Esc.vo"]
-EXTRA_PROPS = ["RK", "C03b", "C03c"]
+STATIC = ["Model/Dispatch.vo", "Model/Esc.vo"]
+EXTRA_PROPS = ["RK", "C03b", "C03c", "C03d"]
 IMPORTS = "From SSP Require Import Model.Pk Model.Bins Model.Esc."
 
 
@@ -92,6 +93,7 @@ def run(chk):
     chk.correspondence("esc_field (1e-8) vs EvolvedMF._derivs_esc on arbitrary (t, y)", ncase, dis)
     # ---- the dispatcher: total derivative = (stellar evolution if enabled) + (escape unless the rate is a non-negative constant)
     nd = 0
+    dexprs, dmeta = [], []
     for ci, (car0, kw, args) in enumerate(cars):
         for _ in range(20 if chk.tier == "quick" else 150):
             car = copy.copy(car0)
@@ -119,11 +121,33 @@ def run(chk):
             except ValueError:
                 continue
             nd += 1
+            if len(dexprs) < (120 if chk.tier == "quick" else 1200):
+                sv = car._derivs_sev(t, y.copy()) if car._stellar_ev else car.massbins.blanks(packed=True)
+                ev = car._derivs_esc(t, y.copy())            # evaluated regardless: the MODEL decides whether it is used
+                if not (np.any(np.isnan(sv)) or np.any(np.isnan(ev)) or np.any(np.isnan(tot))):
+                    dexprs.append("derivs (O:=F_ops) %s %s %s %s %s" % ("true" if car._stellar_ev else "false", "true" if car._time_dep_esc else "false",
+                                                                       C.fl(rate), C.fll(sv), C.fll(ev)))
+                    dmeta.append((case, [float(x) for x in tot]))
             same = np.array_equal(np.nan_to_num(tot, nan=-1.234e300), np.nan_to_num(want, nan=-1.234e300))
             if not same:
                 chk.fail("the instantaneous loss equals the requested rate: the total derivative includes the escape part whenever a rate is given "
                          "(and the stellar-evolution part only when enabled)", case,
                          dict(sum_total=float(np.nansum(tot[:car.massbins.nbin.MS])), sum_expected=float(np.nansum(want[:car.massbins.nbin.MS]))))
+    vals = C.eval_cases("C03disp", "From SSP Require Import Model.Dispatch.", "", dexprs, shard=40)
+    dis = [dict(input=case, impl=C.jsonable(tot[:6]), model=C.jsonable([float(x) for x in v][:6]))
+           for (case, tot), v in zip(dmeta, vals) if not C.all_same(tot, [float(x) for x in v])]
+    chk.correspondence("derivs (bit-exact; Model/Dispatch.v) vs EvolvedMF._derivs given the two parts", len(dmeta), dis)
+    # structural tie: the condition under which the escape part is evaluated, as written in the source
+    import ast as _ast
+    src = open(os.path.join(C.REPO, "ssptools", "evolve_mf.py")).read()
+    conds = []
+    for cls_ in _ast.parse(src).body:
+        if isinstance(cls_, _ast.ClassDef) and cls_.name == "EvolvedMF":
+            for fn in cls_.body:
+                if isinstance(fn, _ast.FunctionDef) and fn.name == "_derivs":
+                    conds = [_ast.unparse(n.test) for n in _ast.walk(fn) if isinstance(n, _ast.If)]
+    chk.oblige("[gen] EvolvedMF._derivs switches its two parts on exactly `self._stellar_ev` and `self._time_dep_esc or self.esc_rate < 0` "
+               "(the conditions Model/Dispatch.v models)", sorted(conds) == sorted(["self._stellar_ev", "self._time_dep_esc or self.esc_rate < 0"]), str(conds))
     chk.count("dispatcher (_derivs) evaluations", nd)
     chk.evaluations += nd
     # ---- N(t) = N0 + integral of the rate over complete runs with all remnants retained --------------------
